@@ -8,13 +8,14 @@ Space (every member is visited, nothing sampled):
              choice non-terminal (16); ProdSequence over the template symbols directly or over VALUE.
              quick: every list configuration with the default map and vice versa plus four crossings
              (sequence over the template symbols; over VALUE for the default pair and the crossings);
-             thorough: the full product with both sequence embeddings, and values one node larger on
-             the quick grammar set.
+             thorough: the full product (sequence over the template symbols; over VALUE on the quick
+             grammar set), and values one node larger on the quick grammar set.
   data     : every value of <= S nodes (atoms a/b, omitted items, lists, maps with repeated keys,
              sequences, absent optional containers), nesting depth <= D, width <= W
-  text     : the data rendered with every gap layout (nothing / line breaks / comments / mixed incl.
-             end-of-line and multi-line comments), and with a final delimiter in no / every (thorough:
-             also only the outermost / only inner) non-empty delimited container
+  text     : the data rendered with a mixed gap layout (blanks, line breaks, end-of-line and multi-line
+             comments, nothing), values of <= 3 nodes additionally with every uniform layout; with a
+             final delimiter in no / every (thorough: also only in the inner) non-empty delimited
+             container
 Oracle: models/templates.py — the generating data is the expected result; the cleaned tree is
 normalised to plain Python data and compared (source order, last value of a repeated key, [] / {} for
 an empty bracket pair, None for an absent optional container).  A final delimiter must be rejected
@@ -92,7 +93,7 @@ _TIERS = {
               "fd": (("all", "tight"),), "big_fd": ()},
     "thorough": {"size": 4, "depth": 4, "width": 4, "big_size": 5,
                  "layouts": ("mixed",), "more_layouts": ("tight", "space", "newline", "comment"), "layout_size": 3,
-                 "fd": (("all", "tight"), ("root", "tight"), ("inner", "mixed")), "big_fd": (("all", "tight"),)},
+                 "fd": (("all", "tight"), ("inner", "mixed")), "big_fd": (("all", "tight"),)},
 }
 SEQ_VARIANTS = ("direct", "value")
 
@@ -126,7 +127,7 @@ def bounds(tier):
     return {"list_option_combinations": len(T.list_options()), "map_option_combinations": len(T.map_options()),
             "sequence_embeddings": list(SEQ_VARIANTS), "grammars": len([x for x in shards(tier) if x[0] == "small"]),
             "max_nodes": t["size"], "max_depth": t["depth"], "max_width": t["width"],
-            "max_nodes_on_core_grammars": t["big_size"] or None, "core_grammars": len(big) * 2 or None,
+            "max_nodes_on_core_grammars": t["big_size"] or None, "core_grammars": len(big) or None,
             "layouts_all_values": list(t["layouts"]), "layouts_values_up_to_nodes": [t["layout_size"], list(t["more_layouts"])],
             "final_delimiter_modes": ["none"] + [f"{a}/{b}" for a, b in t["fd"]],
             "atoms": list(T.ATOMS), "keys": list(T.KEYS)}
@@ -143,8 +144,11 @@ def shards(tier):
         dflt = (T.L_DEFAULT.key(), T.M_DEFAULT.key())
         return ([("small", lk, mk, "direct") for lk, mk in small] +
                 [("small", lk, mk, "value") for lk, mk in [dflt] + small[-4:]])
-    sh = [("small", lk, mk, sv) for lk, mk in small for sv in SEQ_VARIANTS]
-    sh += [("big", lk, mk, sv, i) for lk, mk in big for sv in SEQ_VARIANTS for i in range(BIG_SLICES)]
+    # thorough: the full product with the sequence over the template symbols; the sequence over VALUE
+    # with the core (= quick) grammar set; values of big_size nodes on the core set
+    sh = [("small", lk, mk, "direct") for lk, mk in small]
+    sh += [("small", lk, mk, "value") for lk, mk in big]
+    sh += [("big", lk, mk, "direct", i) for lk, mk in big for i in range(BIG_SLICES)]
     return sh
 
 
